@@ -593,6 +593,18 @@ def c16_systematic() -> list:
                 out.append([("ev", "op", "o1", first, 1, 1), ("idle",), ("ev", "msgs", [{"k": "conn", "a": 1, "f": True}, {"k": "notify", "a": 1, "h": 1}]), ("idle",),
                             endev, ("idle",), ("ev", "op", "o2", k, 1, 1), ("idle",), endev, ("idle",),
                             ("ev", "msgs", [{"k": "ndata", "a": 1, "h": 1, "d": 8}, {"k": "conn", "a": 1, "f": False}]), ("idle",), ("tick",)])
+    # the caller cancels an operation in the very iteration in which its completing message was dispatched (the
+    # future is resolved, the task has not resumed yet): it ends cancelled and leaves nothing subscribed
+    completing = {"read": {"k": "read", "a": 1, "h": 1, "d": 5}, "readdesc": {"k": "read", "a": 1, "h": 1, "d": 5}, "write": {"k": "write", "a": 1, "h": 1},
+                  "writedesc": {"k": "write", "a": 1, "h": 1}, "notify": {"k": "notify", "a": 1, "h": 1}, "services": {"k": "svcdone", "a": 1},
+                  "connect": {"k": "conn", "a": 1, "f": True}, "connect_auto": {"k": "conn", "a": 1, "f": True}, "disconnect": {"k": "conn", "a": 1, "f": False},
+                  "pair": {"k": "pair", "a": 1}, "unpair": {"k": "unpair", "a": 1}, "clear": {"k": "clear", "a": 1}}
+    for k, m in completing.items():
+        for g in ([], [("iter", 1)]):
+            for bad in (False, True):
+                ms = [{"k": "gatterr", "a": 1, "h": 1}] if bad and k in GATT_OPS else [m]
+                out.append([("ev", "op", "o1", k, 1, 1), ("idle",), ("ev", "msgs", ms), ("ev", "cancel", "o1")] + g +
+                           [("idle",), ("ev", "msgs", [{"k": "conn", "a": 1, "f": True}, {"k": "ndata", "a": 1, "h": 1, "d": 3}, {"k": "conn", "a": 1, "f": False}]), ("idle",), ("tick",), ("tick",)])
     # a connected peripheral drops off while calls are pending on it and on another one; its state callback
     # unsubscribes itself from inside the callback
     for k in GATT_OPS + ["services", "pair", "disconnect"]:
